@@ -361,6 +361,9 @@ class Gen(object):
         if r.random() < 0.1 and val is not None and 'strings' in self.p.groups:
             s, nw, nf = fmt
             op['dtype'] = 'fxp-%s%d/%d' % ('s' if s else 'u', nw, nf)
+        elif self.p.prop == 'C02' and r.random() < 0.08 and fmt[1] <= 24:
+            # thin slice of affinely scaled objects (limits mapped through scale and bias)
+            op['kw'] = dict(op['kw'], scale=r.choice([2, 0.5, 4, 0.25, 1]), bias=r.choice([0, 1, -2, 0.5, 8]))
         return op
 
     def g_new_infer(self):
@@ -382,7 +385,14 @@ class Gen(object):
             return self.g_new()
         o = self.w.slots[self.cands(self.is_real)[k]].obj if i is None else self.w.slots[i].obj
         fmt = fmt or self.clamp_fmt(self.near_fmt([bool(o.signed), o.n_word, o.n_frac]))
-        return {'op': 'new_from', 'src': k, 'fmt': fmt, 'kw': self.modes(full=True)}
+        op = {'op': 'new_from', 'src': k, 'fmt': fmt, 'kw': self.modes(full=True)}
+        if r.random() < 0.25:
+            if r.random() < 0.5 or fmt[1] - fmt[2] < 0:
+                op['dtype'] = 'fxp-%s%d/%d' % ('s' if fmt[0] else 'u', fmt[1], fmt[2])
+            else:
+                op['dtype'] = '%s%d.%d' % (r.choice(['Q', 'S']) if fmt[0] else r.choice(['UQ', 'U']),
+                                           fmt[1] - fmt[2], fmt[2])
+        return op
 
     def g_new_like(self):
         r = self.rng
